@@ -217,8 +217,11 @@ Definition settle (before : store) (s : pstate) (o : op) : pstate :=
       match kv_get (s_nodes before) (t, id) with Some _ => release s t KNode | None => s end
   | CreateEdge t id _ _ _ _ =>
       match kv_get (s_edges before) (t, id) with Some _ => release s t KEdge | None => s end
-  | DeleteNode t _ => release s t KNode
-  | DeleteEdge t _ => release s t KEdge
+  (* the unit is freed only if the entity was actually stored *)
+  | DeleteNode t id =>
+      match kv_get (s_nodes before) (t, id) with Some _ => release s t KNode | None => s end
+  | DeleteEdge t id =>
+      match kv_get (s_edges before) (t, id) with Some _ => release s t KEdge | None => s end
   | _ => s
   end.
 
